@@ -369,7 +369,7 @@ def _quick_parts():
     idx = [i for i, c in enumerate(ALL) if (c._stream, c._function) in gem]
     seed = int(os.environ.get("VERIF_SEED", "0") or 0)
     idx += [i for i, c in enumerate(ALL) if _limited_numeric(c)]       # length-limited numeric items (STRP, XYPOS, UPPERDB, ...)
-    rest = [i for i in range(len(ALL)) if i not in idx]
+    rest = [i for i in range(len(ALL)) if i not in idx and i not in _HEAVY and ALL[i]._stream not in (12, 14)]   # heavy ones: thorough tier
     extra = [rest[(seed * 7 + 13 * k) % len(rest)] for k in range(20)]
     lim = [i for i, c in enumerate(ALL) if _limited_numeric(c)]
     out = []
